@@ -127,10 +127,22 @@ def run_c10(ctx):
         c["weights"] = "traj"
     tf2 = ctx.drive("hist", rc, hashseeds=(0, 1, 2) if quick else tuple(range(16)))
     ctx.validate(tf2, {c["id"]: c for c in rc}, driver="hist")
+    # joint-action trajectories (nop entries, members without parameters): exported, read by the
+    # independent reader, parsed back with the executing agents
+    import gen_ma
+    mc = []
+    for i in range(60 if quick else 1200):
+        c = gen_ma.gen_case(ctx.seed, 38000 + i, n_ops=6)
+        c["weights"] = [0, 1, 0]
+        mc.append(c)
+    tf3 = ctx.drive("ma", mc, hashseeds=(0, 1, 2) if quick else tuple(range(16)))
+    ctx.validate(tf3, {c["id"]: c for c in mc}, driver="ma")
     _stats(tf, ctx, {"ExportTrajectory", "ParseTrajectory"})
     _stats(tf2, ctx, {"ExportTrajectory", "ParseTrajectory", "RunPlan"})
+    _stats(tf3, ctx, {"ExportJointTrajectory", "ParseJointTrajectory"})
     ctx.rule = ("trajectories produced by TrajectoryExporter from TLC-generated plans over the micro-domain and from random "
                 "multi-action typed domains; the exported text is read by the independent reader and compared by TLC with the "
                 "triplets (alternation, headers, one step per action); the text is parsed back by TrajectoryParser with and "
                 "without the problem and TLC checks calls, states (facts, fluents with argument lists and values) and the "
-                "chain. distinct_nontrivial = distinct histories with >= 2 trajectory calls")
+                "chain; joint-action trajectories of generated multi-agent domains likewise (MultiAgentTrajectoryExporter, "
+                "parse_trajectory with executing_agents). distinct_nontrivial = distinct histories with >= 2 trajectory calls")
